@@ -116,6 +116,9 @@ func (o Op) StrMap(k string) map[string]string {
 var sizeClassesQuick = []int{1, 2, 7, 100, 1000, 4096, 32767, 32768, 32769, 65537}
 var sizeClassesThorough = []int{1, 2, 7, 100, 1000, 4096, 32767, 32768, 32769, 65537, 1 << 20, 3<<20 + 17}
 
+// sizes at and around which upload and download paths change their buffering
+var sizeClassesLarge = []int{1<<20 - 1, 1 << 20, 1<<20 + 1, 2 << 20, 5<<20 + 3}
+
 // Conc maps the abstract values of one tour to concrete ones.  It is
 // deterministic in (seed, salt).
 type Conc struct {
@@ -123,12 +126,17 @@ type Conc struct {
 	salt    int64
 	sizes   []int
 	atoms   map[string][]byte
+	shift   uint64
 	keyMode int // 0 plain; 1 rich (UTF-8, characters needing URL escaping); 2 rich2 (base64-hostile bytes)
 	small   bool
 }
 
+// saltShiftUnit: salts at or above it carry, in their high part, a rotation of the size classes (every atom then
+// takes each class in turn over the rotations of one tour)
+const saltShiftUnit = 1000000000
+
 func NewConc(seed, salt int64, thorough bool) *Conc {
-	c := &Conc{seed: seed, salt: salt, atoms: map[string][]byte{}}
+	c := &Conc{seed: seed, salt: salt % saltShiftUnit, shift: uint64(salt / saltShiftUnit), atoms: map[string][]byte{}}
 	c.sizes = sizeClassesQuick
 	if thorough {
 		c.sizes = sizeClassesThorough
@@ -152,7 +160,7 @@ func (c *Conc) Atom(a string) []byte {
 		return b
 	}
 	h := hash64(a, fmt.Sprint(c.seed), fmt.Sprint(c.salt))
-	n := c.sizes[int(h%uint64(len(c.sizes)))]
+	n := c.sizes[int((h+c.shift)%uint64(len(c.sizes)))]
 	if c.small && n > 100 {
 		n = int(h%97) + 1
 	}
@@ -247,8 +255,8 @@ func padKey(base string, total int) string {
 
 // Key maps an abstract key (bytes) to the concrete key.  A trailing '!' asks
 // for a key of exactly 1024 bytes (the limit), '!!' for 1025 bytes.
-// longShared is a 220-byte prefix: keys written "^x" share it and differ only after it.
-var longShared = strings.Repeat("q", 220) // (no delimiter inside: the delimiter structure of the abstract key is kept)
+// longShared is a 260-byte prefix: keys written "^x" share it and differ only after it.
+var longShared = strings.Repeat("q", 260) // (no delimiter inside: the delimiter structure of the abstract key is kept; one path segment longer than NAME_MAX)
 
 func (c *Conc) Key(k string) string {
 	if strings.HasPrefix(k, "^") {
